@@ -1,5 +1,513 @@
-/- C03 — property theorems (to be written). -/
-import SoundeventModel.Basic
+/-
+  C03 — Geometry validation accepts exactly the valid geometries and normalises them.
+  Property theorems only (helper lemmas live in Proofs/Lemmas/Validate.lean).
+
+  `validate ty r` is the model of what class `ty` of soundevent/data/geometries.py does with the
+  `coordinates` value `r` (pydantic's typed parse, then the class's field validators in the
+  code's order); `geometryValidate` / `construct` model the four entry points.  `Spec`,
+  `Admissible`, `normalise`, `Normal`, `Valid` are the property's wording
+  (SoundeventModel/Validate.lean); none of them is mentioned by `validate`.
+-/
+import Proofs.Lemmas.Validate
 namespace SE.Proofs.C03
+open SE SE.Validate
+
+/-! ## Accept / reject -/
+
+/-- The full input/output behaviour: an object `g` comes out exactly when the input is the
+    coordinates of an admissible value `c` of the class, and `g` is `c` normalised. -/
+theorem C03_result (ty : GType) (r : Raw) (g : Geom) :
+    validate ty r = .ok g ↔
+      ∃ c, GType.of c = ty ∧ r = dump c ∧ Admissible c ∧ g = normalise c :=
+  (validate_spec ty r).1 g
+
+/-- construction succeeds if and only if the wording accepts the input -/
+theorem C03_accept_iff (ty : GType) (r : Raw) : (∃ g, validate ty r = .ok g) ↔ Spec ty r := by
+  unfold Spec
+  constructor
+  · rintro ⟨g, hg⟩
+    obtain ⟨c, h1, h2, h3, _⟩ := (C03_result ty r g).1 hg
+    exact ⟨c, h1, h2, h3⟩
+  · rintro ⟨c, h1, h2, h3⟩
+    exact ⟨normalise c, (C03_result ty r _).2 ⟨c, h1, h2, h3, rfl⟩⟩
+
+/-- a validator never fails with anything but a validation error (the `v[0][0]` index accesses
+    of the ordering validators are always in range when they run) -/
+theorem C03_no_crash (ty : GType) (r : Raw) : validate ty r ≠ .error .crash := by
+  intro h
+  have := (validate_spec ty r).2 _ h
+  cases this
+
+/-- otherwise a validation error is raised and no object exists -/
+theorem C03_reject (ty : GType) (r : Raw) (h : ¬ Spec ty r) : validate ty r = .error .invalid := by
+  cases hv : validate ty r with
+  | ok g => exact absurd ((C03_accept_iff ty r).1 ⟨g, hv⟩) h
+  | error e => rw [(validate_spec ty r).2 e hv]
+
+/-- `validate` *is* the executable wording: decode the shape, test admissibility, normalise -/
+theorem C03_validate_eq (ty : GType) (r : Raw) :
+    validate ty r =
+      match decode ty r with
+      | some c => if admissibleB c then .ok (normalise c) else .error .invalid
+      | none => .error .invalid := by
+  cases hd : decode ty r with
+  | none =>
+    simp only
+    apply C03_reject
+    rintro ⟨c, hc, hr, _⟩
+    have := (decode_some ty r c).2 ⟨hc, hr⟩
+    rw [hd] at this; cases this
+  | some c =>
+    obtain ⟨hc, hr⟩ := (decode_some ty r c).1 hd
+    simp only
+    by_cases ha : admissibleB c = true
+    · simp only [ha, if_true]
+      exact (C03_result ty r _).2 ⟨c, hc, hr, (admissibleB_iff c).1 ha, rfl⟩
+    · simp only [ha]
+      apply C03_reject
+      rintro ⟨c', hc', hr', ha'⟩
+      have := (decode_some ty r c').2 ⟨hc', hr'⟩
+      rw [hd] at this
+      cases this
+      exact ha ((admissibleB_iff c).2 ha')
+
+/-- the Boolean test used by the run-time monitor decides the wording -/
+theorem C03_specB_iff (ty : GType) (r : Raw) : specB ty r = true ↔ Spec ty r := specB_iff ty r
+
+/-! ## Normal form, class, validity -/
+
+/-- every accepted geometry is in normal form and is an instance of the class asked for -/
+theorem C03_normal (ty : GType) (r : Raw) (g : Geom) (h : validate ty r = .ok g) :
+    Normal g ∧ GType.of g = ty ∧ g.tag = ty.tag := by
+  obtain ⟨c, h1, _, h3, rfl⟩ := (C03_result ty r g).1 h
+  have hv := normalise_valid c h3
+  refine ⟨hv.2, by rw [of_normalise, h1], by rw [tag_eq, of_normalise, h1]⟩
+
+/-- every accepted geometry is valid: in range, with the required counts, in normal form -/
+theorem C03_valid (ty : GType) (r : Raw) (g : Geom) (h : validate ty r = .ok g) : Valid g := by
+  obtain ⟨c, _, _, h3, rfl⟩ := (C03_result ty r g).1 h
+  exact normalise_valid c h3
+
+/-- the valid geometries are exactly the objects that can exist -/
+theorem C03_valid_iff_constructible (g : Geom) :
+    Valid g ↔ ∃ r, validate (GType.of g) r = .ok g := by
+  constructor
+  · intro h
+    refine ⟨dump g, (C03_result _ _ _).2 ⟨g, rfl, rfl, h.1, (normalise_of_valid g h).symm⟩⟩
+  · rintro ⟨r, hr⟩; exact C03_valid _ r g hr
+
+/-- normalisation does nothing else to the coordinates -/
+theorem C03_coordinates_kept (ty : GType) (r : Raw) (g : Geom) (h : validate ty r = .ok g)
+    (hb : ty ≠ .boundingBox) (hl : ty ≠ .lineString) : dump g = r := by
+  obtain ⟨c, h1, h2, _, rfl⟩ := (C03_result ty r g).1 h
+  cases c <;> simp_all [normalise, GType.of]
+
+/-- a box given with reversed time and/or frequency ends is accepted and swapped -/
+theorem C03_box_swapped (s l e h : Rat) (hs : 0 ≤ s) (he : 0 ≤ e)
+    (hl : 0 ≤ l ∧ l ≤ MAXF) (hh : 0 ≤ h ∧ h ≤ MAXF) :
+    validate .boundingBox (.arr [.num s, .num l, .num e, .num h]) =
+      .ok (.boundingBox (min s e) (min l h) (max s e) (max l h)) :=
+  (C03_result _ _ _).2 ⟨.boundingBox s l e h, rfl, rfl, ⟨hs, hl, he, hh⟩, rfl⟩
+
+/-- a line string whose first point is later than its last is accepted and reversed; otherwise
+    it is kept -/
+theorem C03_line_reversed (ps : List Pt) (p q : Pt) (h2 : 2 ≤ ps.length) (hok : ∀ p ∈ ps, PtOk p)
+    (hp : ps.head? = some p) (hq : ps.getLast? = some q) :
+    validate .lineString (encPts ps) =
+      .ok (.lineString (if p.1 > q.1 then ps.reverse else ps)) := by
+  have := (C03_result .lineString (encPts ps) _).2 ⟨.lineString ps, rfl, rfl, ⟨h2, hok⟩, rfl⟩
+  simpa only [normalise, orient, hp, hq] using this
+
+/-- a reversed time interval is *rejected* (not swapped) -/
+theorem C03_interval_reversed_rejected (s e : Rat) (h : e < s) :
+    validate .timeInterval (.arr [.num s, .num e]) = .error .invalid := by
+  apply C03_reject
+  rintro ⟨c, hc, hr, ha⟩
+  cases c <;> simp [GType.of] at hc
+  simp only [dump, Raw.arr.injEq, List.cons.injEq, Raw.num.injEq, and_true] at hr
+  obtain ⟨rfl, rfl⟩ := hr
+  exact absurd h (Rat.not_lt.2 ha.2.2)
+
+/-- a line of a multi-line whose end points have equal times is rejected (strictly forward) -/
+theorem C03_multiline_strict (ls₁ ls₂ : List (List Pt)) (l : List Pt) (p q : Pt)
+    (hp : l.head? = some p) (hq : l.getLast? = some q) (h : q.1 ≤ p.1) :
+    validate .multiLineString (encRings (ls₁ ++ l :: ls₂)) = .error .invalid := by
+  apply C03_reject
+  rintro ⟨c, hc, hr, ha⟩
+  cases c <;> simp [GType.of] at hc
+  rename_i ls
+  have : ls = ls₁ ++ l :: ls₂ := by
+    have h1 := (decode_some .multiLineString _ (.multiLineString ls)).2 ⟨rfl, hr⟩
+    have h2 := (decode_some .multiLineString _ (.multiLineString (ls₁ ++ l :: ls₂))).2 ⟨rfl, rfl⟩
+    have h2' : decode .multiLineString (encRings (ls₁ ++ l :: ls₂)) =
+        some (.multiLineString (ls₁ ++ l :: ls₂)) := h2
+    rw [h2'] at h1
+    injection h1 with h1; injection h1 with h1; exact h1.symm
+  subst this
+  obtain ⟨p', q', hp', hq', hlt⟩ := (ha.2 l (by simp)).2.2
+  rw [hp] at hp'; rw [hq] at hq'
+  cases hp'; cases hq'
+  exact absurd hlt (Rat.not_lt.2 h)
+
+/-- normalising twice is normalising once (on admissible coordinates), and the normal form of an
+    admissible value is again admissible -/
+theorem C03_normalise_idempotent (c : Geom) (h : Admissible c) :
+    normalise (normalise c) = normalise c ∧ Admissible (normalise c) ∧ Normal (normalise c) := by
+  have hv := normalise_valid c h
+  exact ⟨normalise_of_valid _ hv, hv.1, hv.2⟩
+
+/-! ## Re-validation of the dump -/
+
+/-- re-validating the dumped coordinates of an accepted geometry yields an equal geometry -/
+theorem C03_fixpoint (ty : GType) (r : Raw) (g : Geom) (h : validate ty r = .ok g) :
+    validate ty (dump g) = .ok g := by
+  have hv := C03_valid ty r g h
+  have ht := (C03_normal ty r g h).2.1
+  exact (C03_result _ _ _).2 ⟨g, ht, rfl, hv.1, (normalise_of_valid g hv).symm⟩
+
+/-- the dump determines the object: two geometries of one class with equal dumps are equal -/
+theorem C03_dump_injective (g g' : Geom) (ht : GType.of g = GType.of g') (h : dump g = dump g') :
+    g = g' := by
+  have h1 := decode_dump g
+  have h2 := decode_dump g'
+  rw [ht, h, h2] at h1
+  injection h1 with h1
+  exact h1.symm
+
+/-! ## The four entry points -/
+
+/-- what an entry point gets to see of the object it is handed: the type tag and the coordinates
+    (`none`: the mode cannot read the object, or one of the two is missing) -/
+def view : Mode → PyObj → Option (String × Raw)
+  | .json, .str (some (.dict (some t) (some r))) => some (t, r)
+  | .dict, .val (.dict (some t) (some r)) => some (t, r)
+  | .attributes, .attrs (some t) (some r) => some (t, r)
+  | _, _ => none
+
+/-- the table of the model is well formed (the table obligation shows on every run that the
+    table extracted from the code *is* this one) -/
+theorem C03_table_wellFormed : WellFormed table := wellFormedB_sound table (by decide)
+
+theorem C03_wellFormedB_sound (tbl : Table) (h : wellFormedB tbl = true) : WellFormed tbl :=
+  wellFormedB_sound tbl h
+
+/-- Every mode of `geometry_validate` is `validate` of the class named by the tag, applied to the
+    coordinates, whenever the mode can read a known tag and coordinates off the object – and a
+    validation error otherwise (wrong kind of object for the mode, text that is not JSON, missing
+    `type`, tag not in the table, missing `coordinates`). -/
+theorem C03_geometryValidate_eq (tbl : Table) (hw : WellFormed tbl) (mode : Mode) (obj : PyObj) :
+    geometryValidate tbl mode obj =
+      match view mode obj with
+      | some (t, r) =>
+        (match GType.ofTag t with
+         | some ty => (validate ty r).map fun g => (t, g)
+         | none => .error .invalid)
+      | none => .error .invalid := by
+  have hl := lookup_of_wellFormed tbl hw
+  cases mode <;> rcases obj with (_ | (⟨_ | t, _ | r⟩ | _)) | (⟨_ | t, _ | r⟩ | _) | ⟨_ | t, _ | r⟩ <;>
+    simp only [geometryValidate, view, bad, reduceCtorEq, if_true, if_false, PyObj.source, hl] <;>
+    (try rfl)
+  all_goals
+    cases ht : GType.ofTag t with
+    | none => rfl
+    | some ty =>
+      have := (ofTag_some t ty).1 ht
+      subst this
+      simp [classValidate_ideal]
+
+/-- direct construction: the class's own validation, with the `type` keyword absent or given -/
+theorem C03_construct_eq (ty : GType) (t : Option String) (r : Option Raw) :
+    construct ⟨ty, ty.tag, ty.tag⟩ t r =
+      match r with
+      | none => .error .invalid
+      | some r =>
+        if t = none ∨ t = some ty.tag then (validate ty r).map fun g => (ty.tag, g)
+        else .error .invalid := by
+  unfold construct
+  rw [classValidate_ideal]
+  cases r <;> rfl
+
+/-- The four entry points agree: handed the tag of class `ty` and coordinates `r`, the
+    constructor and the three modes all return what `validate ty r` returns. -/
+theorem C03_entrypoints_agree (tbl : Table) (hw : WellFormed tbl) (ty : GType) (r : Raw) :
+    let res : R Obj := (validate ty r).map fun g => (ty.tag, g)
+    construct ⟨ty, ty.tag, ty.tag⟩ none (some r) = res ∧
+    construct ⟨ty, ty.tag, ty.tag⟩ (some ty.tag) (some r) = res ∧
+    geometryValidate tbl .dict (.val (.dict (some ty.tag) (some r))) = res ∧
+    geometryValidate tbl .json (.str (some (.dict (some ty.tag) (some r)))) = res ∧
+    geometryValidate tbl .attributes (.attrs (some ty.tag) (some r)) = res := by
+  have ht : GType.ofTag ty.tag = some ty := (ofTag_some _ _).2 rfl
+  refine ⟨?_, ?_, ?_, ?_, ?_⟩
+  · rw [C03_construct_eq]; simp
+  · rw [C03_construct_eq]; simp
+  · rw [C03_geometryValidate_eq tbl hw]; simp only [view, ht]
+  · rw [C03_geometryValidate_eq tbl hw]; simp only [view, ht]
+  · rw [C03_geometryValidate_eq tbl hw]; simp only [view, ht]
+
+/-- a missing or unknown tag, or missing coordinates, is a validation error in every mode -/
+theorem C03_bad_tag_rejected (tbl : Table) (hw : WellFormed tbl) (mode : Mode) (obj : PyObj)
+    (h : ∀ t r, view mode obj = some (t, r) → GType.ofTag t = none) :
+    geometryValidate tbl mode obj = .error .invalid := by
+  rw [C03_geometryValidate_eq tbl hw]
+  cases hv : view mode obj with
+  | none => rfl
+  | some tr => obtain ⟨t, r⟩ := tr; simp only [h t r hv]
+
+/-- in every mode an accepted object is an instance of the class named by its type tag, is in
+    normal form and valid -/
+theorem C03_class_of_tag (tbl : Table) (hw : WellFormed tbl) (mode : Mode) (obj : PyObj) (t : String)
+    (g : Geom) (h : geometryValidate tbl mode obj = .ok (t, g)) :
+    g.tag = t ∧ (GType.of g).tag = t ∧ Valid g := by
+  rw [C03_geometryValidate_eq tbl hw] at h
+  cases hv : view mode obj with
+  | none => simp [hv] at h
+  | some tr =>
+    obtain ⟨t', r⟩ := tr
+    simp only [hv] at h
+    cases ht : GType.ofTag t' with
+    | none => simp [ht] at h
+    | some ty =>
+      simp only [ht] at h
+      cases hval : validate ty r with
+      | error e => simp [hval, Except.map] at h
+      | ok g' =>
+        simp only [hval, Except.map, Except.ok.injEq, Prod.mk.injEq] at h
+        obtain ⟨rfl, rfl⟩ := h
+        have hn := C03_normal ty r g' hval
+        have := (ofTag_some t' ty).1 ht
+        exact ⟨by rw [hn.2.2, this], by rw [hn.2.1, this], C03_valid ty r g' hval⟩
+
+/-- re-validating the JSON dump of an object accepted through any entry point yields an equal
+    object (same type field, equal geometry), whichever mode reads the dump back -/
+theorem C03_dump_roundtrip (tbl : Table) (hw : WellFormed tbl) (mode : Mode) (obj : PyObj) (o : Obj)
+    (h : geometryValidate tbl mode obj = .ok o) :
+    geometryValidate tbl .json (.str (some (dumpDoc o))) = .ok o ∧
+    geometryValidate tbl .dict (.val (dumpDoc o)) = .ok o ∧
+    geometryValidate tbl .attributes (.attrs (some o.1) (some (dump o.2))) = .ok o := by
+  obtain ⟨t, g⟩ := o
+  have hfix : (match GType.ofTag t with
+      | some ty => (validate ty (dump g)).map fun g => (t, g)
+      | none => (.error .invalid : R Obj)) = .ok (t, g) := by
+    rw [C03_geometryValidate_eq tbl hw] at h
+    cases hv : view mode obj with
+    | none => simp [hv] at h
+    | some tr =>
+      obtain ⟨t', r⟩ := tr
+      simp only [hv] at h
+      cases ht : GType.ofTag t' with
+      | none => simp [ht] at h
+      | some ty =>
+        simp only [ht] at h
+        cases hval : validate ty r with
+        | error e => simp [hval, Except.map] at h
+        | ok g' =>
+          simp only [hval, Except.map, Except.ok.injEq, Prod.mk.injEq] at h
+          obtain ⟨rfl, rfl⟩ := h
+          simp only [ht, C03_fixpoint ty r g' hval, Except.map]
+  refine ⟨?_, ?_, ?_⟩ <;> (rw [C03_geometryValidate_eq tbl hw]; simpa only [view, dumpDoc] using hfix)
+
+/-- the same for direct construction -/
+theorem C03_construct_roundtrip (tbl : Table) (hw : WellFormed tbl) (ty : GType) (r : Raw) (o : Obj)
+    (h : construct ⟨ty, ty.tag, ty.tag⟩ none (some r) = .ok o) :
+    geometryValidate tbl .json (.str (some (dumpDoc o))) = .ok o := by
+  obtain ⟨h'', _, h', _⟩ := C03_entrypoints_agree tbl hw ty r
+  rw [← h'', h] at h'
+  exact (C03_dump_roundtrip tbl hw _ _ o h').1
+
+/-! ## Boundaries -/
+
+/-- a point is accepted exactly on the closed quadrant strip `0 ≤ t`, `0 ≤ f ≤ MAX_FREQUENCY` -/
+theorem C03_point_boundary (t f : Rat) :
+    (∃ g, validate .point (.arr [.num t, .num f]) = .ok g) ↔ 0 ≤ t ∧ 0 ≤ f ∧ f ≤ MAXF := by
+  rw [C03_accept_iff]
+  constructor
+  · rintro ⟨c, hc, hr, ha⟩
+    cases c <;> simp [GType.of] at hc
+    simp only [dump, encPt, Raw.arr.injEq, List.cons.injEq, Raw.num.injEq, and_true] at hr
+    obtain ⟨rfl, rfl⟩ := hr
+    exact ⟨ha.1, ha.2.1, ha.2.2⟩
+  · rintro ⟨h1, h2, h3⟩
+    exact ⟨.point t f, rfl, rfl, h1, h2, h3⟩
+
+/-- exactly 0 is accepted, as a time and as a frequency -/
+theorem C03_accept_zero :
+    validate .timeStamp (.num 0) = .ok (.timeStamp 0) ∧
+    validate .point (.arr [.num 0, .num 0]) = .ok (.point 0 0) ∧
+    validate .boundingBox (.arr [.num 0, .num 0, .num 0, .num 0]) = .ok (.boundingBox 0 0 0 0) := by
+  refine ⟨?_, ?_, ?_⟩
+  · exact (C03_result _ _ _).2 ⟨.timeStamp 0, rfl, rfl, Rat.le_refl, rfl⟩
+  · exact (C03_result _ _ _).2 ⟨.point 0 0, rfl, rfl, ⟨Rat.le_refl, Rat.le_refl, by decide +kernel⟩, rfl⟩
+  · exact (C03_result _ _ _).2 ⟨.boundingBox 0 0 0 0, rfl, rfl,
+      ⟨Rat.le_refl, ⟨Rat.le_refl, by decide +kernel⟩, Rat.le_refl, ⟨Rat.le_refl, by decide +kernel⟩⟩,
+      by decide +kernel⟩
+
+/-- exactly `MAX_FREQUENCY` is accepted -/
+theorem C03_accept_max_frequency (t : Rat) (ht : 0 ≤ t) :
+    validate .point (.arr [.num t, .num MAXF]) = .ok (.point t MAXF) :=
+  (C03_result _ _ _).2 ⟨.point t MAXF, rfl, rfl, ⟨ht, by decide +kernel, Rat.le_refl⟩, rfl⟩
+
+/-- anything above `MAX_FREQUENCY` is rejected, however little above -/
+theorem C03_reject_above_max (t f : Rat) (h : MAXF < f) :
+    validate .point (.arr [.num t, .num f]) = .error .invalid := by
+  cases hv : validate .point (.arr [.num t, .num f]) with
+  | ok g =>
+    have := (C03_point_boundary t f).1 ⟨g, hv⟩
+    exact absurd h (Rat.not_lt.2 this.2.2)
+  | error e => rw [(validate_spec _ _).2 e hv]
+
+/-- anything below 0 is rejected, as a time or as a frequency -/
+theorem C03_reject_negative (t f : Rat) (h : t < 0 ∨ f < 0) :
+    validate .point (.arr [.num t, .num f]) = .error .invalid := by
+  cases hv : validate .point (.arr [.num t, .num f]) with
+  | ok g =>
+    have := (C03_point_boundary t f).1 ⟨g, hv⟩
+    rcases h with h | h
+    · exact absurd h (Rat.not_lt.2 this.1)
+    · exact absurd h (Rat.not_lt.2 this.2.1)
+  | error e => rw [(validate_spec _ _).2 e hv]
+
+/-- one bad coordinate anywhere inside a multi-polygon (any polygon, any ring, any position)
+    makes the whole input invalid -/
+theorem C03_reject_deep_inside (ps₁ ps₂ : List (List (List Pt))) (rs₁ rs₂ : List (List Pt))
+    (ring₁ ring₂ : List Pt) (p : Pt) (h : ¬ PtOk p) :
+    validate .multiPolygon
+      (encPolys (ps₁ ++ (rs₁ ++ (ring₁ ++ p :: ring₂) :: rs₂) :: ps₂)) = .error .invalid := by
+  apply C03_reject
+  rintro ⟨c, hc, hr, ha⟩
+  cases c <;> simp [GType.of] at hc
+  rename_i ps
+  have : ps = ps₁ ++ (rs₁ ++ (ring₁ ++ p :: ring₂) :: rs₂) :: ps₂ := by
+    have h1 := (decode_some .multiPolygon _ (.multiPolygon ps)).2 ⟨rfl, hr⟩
+    have h2 : decode .multiPolygon (encPolys (ps₁ ++ (rs₁ ++ (ring₁ ++ p :: ring₂) :: rs₂) :: ps₂)) =
+        some (.multiPolygon (ps₁ ++ (rs₁ ++ (ring₁ ++ p :: ring₂) :: rs₂) :: ps₂)) :=
+      (decode_some .multiPolygon _ (.multiPolygon _)).2 ⟨rfl, rfl⟩
+    rw [h2] at h1
+    injection h1 with h1; injection h1 with h1; exact h1.symm
+  subst this
+  have h1 : PolyOk (rs₁ ++ (ring₁ ++ p :: ring₂) :: rs₂) := ha.2 _ (by simp)
+  have h2 : RingOk (ring₁ ++ p :: ring₂) := h1.2 _ (by simp)
+  exact h (h2.2 p (by simp))
+
+/-- the same for a point of a line of a multi-line string -/
+theorem C03_reject_deep_inside_line (ls₁ ls₂ : List (List Pt)) (l₁ l₂ : List Pt) (p : Pt)
+    (h : ¬ PtOk p) :
+    validate .multiLineString (encRings (ls₁ ++ (l₁ ++ p :: l₂) :: ls₂)) = .error .invalid := by
+  apply C03_reject
+  rintro ⟨c, hc, hr, ha⟩
+  cases c <;> simp [GType.of] at hc
+  rename_i ls
+  have : ls = ls₁ ++ (l₁ ++ p :: l₂) :: ls₂ := by
+    have h1 := (decode_some .multiLineString _ (.multiLineString ls)).2 ⟨rfl, hr⟩
+    have h2 : decode .multiLineString (encRings (ls₁ ++ (l₁ ++ p :: l₂) :: ls₂)) =
+        some (.multiLineString (ls₁ ++ (l₁ ++ p :: l₂) :: ls₂)) :=
+      (decode_some .multiLineString _ (.multiLineString _)).2 ⟨rfl, rfl⟩
+    rw [h2] at h1
+    injection h1 with h1; injection h1 with h1; exact h1.symm
+  subst this
+  have h1 : LineOk (l₁ ++ p :: l₂) := ha.2 _ (by simp)
+  exact h (h1.2.1 p (by simp))
+
+/-- wrong arity of an inner point (one or three numbers) is rejected: it is not the dump of any
+    value of the class -/
+theorem C03_reject_wrong_arity (xs : List Raw) (rest : List Raw) (h : xs.length ≠ 2) :
+    validate .multiPoint (.arr (.arr xs :: rest)) = .error .invalid := by
+  apply C03_reject
+  rintro ⟨c, hc, hr, hadm⟩
+  cases c <;> simp [GType.of] at hc
+  rename_i ps
+  cases ps with
+  | nil => simp [dump, encPts] at hr
+  | cons q qs =>
+    simp only [dump, encPts, encPt, List.map_cons, Raw.arr.injEq, List.cons.injEq] at hr
+    rw [hr.1] at h
+    simp at h
+
+/-- wrong nesting (a number where a list is expected, or the reverse) is rejected -/
+theorem C03_reject_wrong_nesting (q : Rat) (xs : List Raw) :
+    validate .timeStamp (.arr xs) = .error .invalid ∧
+    validate .point (.num q) = .error .invalid ∧
+    validate .lineString (.arr (.num q :: xs)) = .error .invalid ∧
+    validate .point (.arr (.arr xs :: [.num q])) = .error .invalid := by
+  refine ⟨?_, ?_, ?_, ?_⟩ <;> apply C03_reject <;> rintro ⟨c, hc, hr, hadm⟩ <;>
+    cases c <;> simp [GType.of] at hc <;> simp [dump, encPt, encPts] at hr
+  rename_i ps
+  cases ps <;> simp [encPt] at hr
+
+/-! ## The run-time monitor is the property -/
+
+theorem C03_holds_complete (ty : GType) (r : Raw) : holdsB ty r (validate ty r) = true := by
+  rw [C03_validate_eq]
+  unfold holdsB specB
+  cases hd : decode ty r with
+  | none => simp
+  | some c =>
+    obtain ⟨hc, _⟩ := (decode_some ty r c).1 hd
+    by_cases ha : admissibleB c = true
+    · have hv := normalise_valid c ((admissibleB_iff c).1 ha)
+      simp [ha, (normalB_iff _).2 hv.2, of_normalise, hc]
+    · simp [ha]
+
+theorem C03_holds_sound (ty : GType) (r : Raw) (out : R Geom) (h : holdsB ty r out = true) :
+    out = validate ty r := by
+  rw [C03_validate_eq]
+  unfold holdsB specB at h
+  cases out with
+  | error e =>
+    cases e <;> cases hd : decode ty r <;> simp_all
+  | ok g =>
+    cases hd : decode ty r with
+    | none => simp [hd] at h
+    | some c => simp [hd] at h; simp [h]
+
+/-! ## Non-vacuity: the statements above are about inputs that exist, on both sides -/
+
+-- accepted, with normalisation
+example : validate .boundingBox (.arr [.num 3, .num 5, .num 1, .num 2]) = .ok (.boundingBox 1 2 3 5) := by
+  decide +kernel
+example : validate .lineString (encPts [(1, 2), (1/2, 7), (0, 5)]) = .ok (.lineString [(0, 5), (1/2, 7), (1, 2)]) := by
+  decide +kernel
+example : validate .lineString (encPts [(1, 2), (0, 7), (1, 5)]) = .ok (.lineString [(1, 2), (0, 7), (1, 5)]) := by
+  decide +kernel
+example : validate .multiPolygon (encPolys [[[(0, 0), (1, 0), (1, MAXF)]], [[(2, 0), (3, 0), (3, 1)], [(2, 0), (2, 0), (2, 0)]]])
+    = .ok (.multiPolygon [[[(0, 0), (1, 0), (1, MAXF)]], [[(2, 0), (3, 0), (3, 1)], [(2, 0), (2, 0), (2, 0)]]]) := by
+  decide +kernel
+example : validate .multiLineString (encRings [[(0, 1), (5, 1), (1, 1)]]) = .ok (.multiLineString [[(0, 1), (5, 1), (1, 1)]]) := by
+  decide +kernel
+-- rejected: boundary, arity, nesting, counts, ordering
+example : validate .point (.arr [.num 0, .num (MAXF + 1/1024)]) = .error .invalid := by decide +kernel
+example : validate .timeStamp (.num (-1/1024)) = .error .invalid := by decide +kernel
+example : validate .timeInterval (.arr [.num 2, .num 1]) = .error .invalid := by decide +kernel
+example : validate .timeInterval (.arr [.num 1, .num 1]) = .ok (.timeInterval 1 1) := by decide +kernel
+example : validate .multiLineString (encRings [[(1, 1), (5, 1), (1, 1)]]) = .error .invalid := by decide +kernel
+example : validate .multiPoint (.arr [.arr [.num 1, .num 2, .num 3]]) = .error .invalid := by decide +kernel
+example : validate .multiPoint (.arr [.arr [.num 1]]) = .error .invalid := by decide +kernel
+example : validate .multiPoint (.arr []) = .error .invalid := by decide +kernel
+example : validate .lineString (encPts [(1, 2)]) = .error .invalid := by decide +kernel
+example : validate .polygon (encRings [[(0, 0), (1, 0)]]) = .error .invalid := by decide +kernel
+example : validate .polygon (.arr [.arr [.arr [.arr [.num 0, .num 0]]]]) = .error .invalid := by decide +kernel
+example : validate .multiPolygon (encPolys [[[(0, 0), (1, 0), (1, 1)]], [[(2, 0), (3, 0), (3, MAXF + 1)]]])
+    = .error .invalid := by decide +kernel
+-- hypotheses of the theorems with premises are satisfiable
+example : ¬ PtOk (0, MAXF + 1) := by unfold PtOk TimeOk FreqOk; decide +kernel
+example : PtOk (0, MAXF) ∧ PtOk (0, 0) := by unfold PtOk TimeOk FreqOk; decide +kernel
+example : wellFormedB table = true := by decide
+example : wellFormedB ((table.drop 1)) = false := by decide
+example : wellFormedB (("Point", ⟨.multiPoint, "Point", "Point"⟩) :: table) = false := by decide
+-- the entry points on a concrete object; unknown / missing tag; wrong mode for the object
+example : geometryValidate table .json (.str (some (.dict (some "BoundingBox") (some (.arr [.num 3, .num 5, .num 1, .num 2])))))
+    = .ok ("BoundingBox", .boundingBox 1 2 3 5) := by decide +kernel
+example : geometryValidate table .attributes (.attrs (some "BoundingBox") (some (.arr [.num 3, .num 5, .num 1, .num 2])))
+    = .ok ("BoundingBox", .boundingBox 1 2 3 5) := by decide +kernel
+example : geometryValidate table .other (.attrs (some "BoundingBox") (some (.arr [.num 3, .num 5, .num 1, .num 2])))
+    = .error .invalid := by decide +kernel
+example : geometryValidate table .dict (.val (.dict (some "Box") (some (.num 1)))) = .error .invalid := by decide +kernel
+example : geometryValidate table .dict (.val (.dict none (some (.num 1)))) = .error .invalid := by decide +kernel
+example : geometryValidate table .dict (.attrs (some "TimeStamp") (some (.num 1))) = .error .invalid := by decide +kernel
+example : geometryValidate table .json (.str none) = .error .invalid := by decide +kernel
+example : construct ⟨.timeStamp, "TimeStamp", "TimeStamp"⟩ (some "Point") (some (.num 1)) = .error .invalid := by
+  decide +kernel
+example : holdsB .boundingBox (.arr [.num 3, .num 5, .num 1, .num 2]) (.ok (.boundingBox 3 5 1 2)) = false := by
+  decide +kernel
+example : holdsB .timeStamp (.num (-1)) (.ok (.timeStamp (-1))) = false := by decide +kernel
 
 end SE.Proofs.C03
